@@ -68,7 +68,29 @@ def one_call(p, c, logdir, call_no, rng, tfail, ifail):
     out = {"values": None, "raised": None}
     try:
         r = p(gen_input(logdir, call_no, c["N"], tfail, ifail, rng, c.get("exc", "TaskFail")))
-        out["values"] = [list(v) for v in r]
+        ab = c.get("abandon") if call_no == 1 else None
+        if ab and c["return_as"] != "list":
+            # the output generator is abandoned after `npull` values: closed, or dropped and collected
+            how, npull = ab
+            vals = []
+            for _ in range(npull):
+                try:
+                    vals.append(list(next(r)))
+                except StopIteration:
+                    break
+            import gc
+            import warnings
+            with warnings.catch_warnings():
+                warnings.simplefilter("ignore")
+                if how == "close":
+                    r.close()
+                else:
+                    del r
+                    gc.collect()
+            out["values"] = vals
+            out["abandoned"] = True
+        else:
+            out["values"] = [list(v) for v in r]
     except BaseException as e:  # noqa
         out["raised"] = [type(e).__name__, [a if isinstance(a, (int, str)) else repr(a) for a in e.args]]
     return out
